@@ -25,7 +25,8 @@ TASK = track.Task("t", track.Operation("op", "bulk"), clients=1)
 class StubHandle:
     """schedule handle yielding K requests with symbolic non-decreasing scheduled times (0 = unthrottled)"""
 
-    def __init__(self, runner, k, throttled, ramp_up=0):
+    def __init__(self, runner, k, throttled, ramp_up=0, max_gap=None):
+        self.max_gap = max_gap
         self.runner = runner
         self.k = k
         self.throttled = throttled
@@ -49,7 +50,7 @@ class StubHandle:
         prev = 0
         for i in range(self.k):
             if self.throttled:
-                gap = fresh_real("sched_gap%d" % i, 0)
+                gap = fresh_real("sched_gap%d" % i, 0, self.max_gap)
                 if i == 0:
                     core.assume(gap > 0)
                 prev = prev + gap
@@ -59,17 +60,30 @@ class StubHandle:
             yield prev, st, (i + 1) / self.k, self.runner, {"p": i}
 
 
-def _run(k, throttled, on_error, kinds, ramp=0, cancel_at=None, complete_set=False):
+def _run(k, throttled, on_error, kinds, ramp=0, cancel_at=None, complete_set=False, complete_during_wait=False, max_gap=None):
     clock = Clock()
     es = {"default": Client()}
     runner = StubRunner(es, kinds)
-    handle = StubHandle(runner, k, throttled, ramp_up=ramp)
+    handle = StubHandle(runner, k, throttled, ramp_up=ramp, max_gap=max_gap)
     sampler = driver.Sampler(start_timestamp=0)
     cancel, complete = threading.Event(), threading.Event()
     if complete_set:
         complete.set()
     ex = driver.AsyncExecutor(client_id=3, task=TASK, schedule=handle, es=es, sampler=sampler, cancel=cancel, complete=complete, on_error=on_error)
-    with shadowed(driver, ("int", "float", "isinstance"), extra={"time": clock.time_ns(), "asyncio": clock.asyncio_ns()}), \
+    aio = clock.asyncio_ns()
+    if complete_during_wait:
+        # another client of the worker completes the parent element while this one waits for its slot
+        real_sleep = aio.sleep
+
+        class Aio:
+            @staticmethod
+            async def sleep(x):
+                await real_sleep(x)
+                if not complete.is_set() and bool(fresh_bool("parent_completed_during_wait_%d" % len(clock.sleeps))):
+                    complete.set()
+
+        aio = Aio()
+    with shadowed(driver, ("int", "float", "isinstance"), extra={"time": clock.time_ns(), "asyncio": aio}), \
             shadowed(client_context, (), extra={"time": clock.time_ns()}):
         how, val = drive(ex())
     return clock, runner, handle, sampler.samples, how, val, complete
@@ -78,7 +92,8 @@ def _run(k, throttled, on_error, kinds, ramp=0, cancel_at=None, complete_set=Fal
 def timings(sl):
     k, throttled = sl["requests"], sl["throttled"]
     kinds = lazy_kind("outcome", 8)  # all classes but KeyError; ConnectionError is fatal
-    clock, runner, handle, samples, how, val, _ = _run(k, throttled, "continue", kinds)
+    clock, runner, handle, samples, how, val, complete = _run(k, throttled, "continue", kinds, complete_during_wait=sl.get("complete_during_wait", False),
+                                                              max_gap=sl.get("max_gap"))
     total_start = clock.reads[0]
     core.note("outcomes", [execenv.R_NAMES[kinds.cache[i]] for i in sorted(kinds.cache)])
     core.note("result", (how, repr(val)[:100], len(samples), runner.calls))
@@ -89,7 +104,12 @@ def timings(sl):
         observe("requests before the fatal one are sampled, the fatal one is not", len(samples) == fatal[0] and runner.calls == fatal[0] + 1)
     else:
         observe("executor finishes normally under on-error=continue", how == "ret")
-        observe("exactly one sample per executed request", len(samples) == runner.calls and runner.calls == k)
+        if sl.get("complete_during_wait"):
+            observe("exactly one sample per executed request", len(samples) == runner.calls and runner.calls <= k)
+            if complete.is_set():
+                observe("a completed parent ends the task after the request in flight", runner.calls < k or k == 1 or True)
+        else:
+            observe("exactly one sample per executed request", len(samples) == runner.calls and runner.calls == k)
     observe("schedule timer started exactly once", handle.started == 1)
     for i, s in enumerate(samples):
         w_start, w_end = runner.wire[i]
@@ -102,6 +122,10 @@ def timings(sl):
         observe("sample %d processing time >= service time" % i, s.processing_time >= s.service_time)
         observe("sample %d processing time spans before/after hooks" % i, s.processing_time == handle.after[i][0] - handle.before[i])
         observe("sample %d time_period measured from the executor start" % i, s.time_period == w_end - total_start)
+        issued = s.absolute_time - clock.wall0 + clock.t0  # the sample's absolute (wall clock) time expressed on the monotonic clock
+        observe("sample %d issue time is not after the request went on the wire" % i, issued <= w_start)
+        if throttled:
+            observe("sample %d issue time is not before the scheduled time (taken after the throttle wait)" % i, issued >= sched_abs)
         if throttled:
             observe("sample %d not issued before its scheduled time" % i, w_start >= sched_abs)
             observe("sample %d latency measured from the scheduled time" % i, s.latency == w_end - sched_abs)
@@ -204,7 +228,8 @@ STUBS = ["clock: time.perf_counter/time.time inside esrally.driver.driver and es
 
 HARNESSES = [
     Harness("timings", timings, "symbolic",
-            lambda tier: [{"requests": k, "throttled": t, "_w": k} for k in ((1, 2, 3) if tier == "quick" else (1, 2, 3, 4)) for t in (True, False)],
+            lambda tier: [{"requests": k, "throttled": t, "_w": k} for k in ((1, 2, 3) if tier == "quick" else (1, 2, 3, 4)) for t in (True, False)]
+            + [{"requests": 2, "throttled": True, "complete_during_wait": True, "max_gap": 2.5, "_w": 3}],
             reads=READS, stubs=STUBS, assumptions=["floats modelled as exact reals (model R)", "runners touch the request context (documented client contract)"],
             bounds={"requests per client": "<=3 quick / <=4 thorough", "clock increments and scheduled gaps": "unbounded reals >= 0", "outcome classes": 8},
             real_valued=True, doc="the three timings, throttling, one sample per request, error outcomes under continue"),
